@@ -28,6 +28,8 @@ with pgraph :=
          (succ : list (nat * list nat))  (* [graph.succ]: node -> successors in insertion order *)
          (head : nat).                   (* [list(topological_sort(graph))[0]]; ignored when there are no nodes *)
 
+Arguments PEvent e%positive brk%bool.
+
 Definition g_nodes (g : pgraph) := match g with PGraph ns _ _ => ns end.
 Definition g_succ (g : pgraph) := match g with PGraph _ sc _ => sc end.
 Definition g_head (g : pgraph) := match g with PGraph _ _ h => h end.
